@@ -6,7 +6,10 @@ CONFIG = {'gen': ['C19Flags', 'C19Codes', 'C19NtStatus', 'C19NtErrors'],
          'row of the 17 code tables through the real String()/Description()/FromBytes, undeclared values exhaustively (8-bit; 16-bit in '
          'thorough) or neighbours + random, pairs of constants for uniqueness (all pairs whose real names collide, all neighbours, random '
          'pairs); (c) every declared NT status, its neighbours and random 32-bit values through the real String() and Error(); distinct = '
-         'distinct input line; non-trivial = implementation output is a non-empty value A third of the FromBytes cases of the key-credential flag/enum types reuse a value that has decoded the complement before. c19.getflags is also compared with a specification: the declared non-reserved single-bit constants set in the word, ascending; set reserved bits may or may not be listed. c19.strmask: the rendering of a word equals the rendering of the word with every undeclared bit cleared.',
+         'distinct input line; non-trivial = implementation output is a non-empty value A third of the FromBytes cases of the '
+         'key-credential flag/enum types reuse a value that has decoded the complement before. c19.getflags is also compared with a '
+         'specification: the declared non-reserved single-bit constants set in the word, ascending; set reserved bits may or may not be '
+         'listed. c19.strmask: the rendering of a word equals the rendering of the word with every undeclared bit cleared.',
  'assumptions': ['Go map literals with constant keys have no duplicate keys (compile error otherwise); map lookup is first-match-free',
                  'sort.Strings / sort.Slice return the sorted permutation; strings.Join, fmt %d %s %08x, errors.New behave as modelled',
                  'a flag name is tied to its constant by the identifier convention of its const block (FLAGS2_DFS ~ "DFS", letters and '
